@@ -1,5 +1,12 @@
 package main
 
+import (
+	"go/ast"
+	"go/token"
+	"strconv"
+	"strings"
+)
+
 func init() {
 	generators["C20_gen"] = func(o *out) {
 		const d = "server"
@@ -22,10 +29,392 @@ func init() {
 		o.exprOfAssign(funcSpec{dir: d, recv: "Server", name: "startHealthCheck", coqName: "health_init_status",
 			params: "(failures : Z)", retType: "Z", leaves: hc}, "healthStatus", 0)
 		o.selectArmExits(d, "Server", "healthCheckLoop", "s.Closed", "loop_closed_exits")
+		// lock discipline: the order of lock operations, token pings, Closed tests, returns and accesses of the shared state
+		o.lockEvents(d, "Server", "healthCheck", "healthMu", "hc_events")
+		o.lockEvents(d, "Server", "Healthy", "healthMu", "healthy_events")
+		o.lockEvents(d, "Server", "serveHealth", "healthMu", "serve_health_events")
+		o.lockEvents(d, "Server", "pingOne", "healthMu", "ping_one_events")
+		// Close waits for the background loop: startHealthCheck publishes a channel that the loop goroutine closes on
+		// return, and Close receives from it before it closes the tokens
+		o.hasStmt(d, "Server", "startHealthCheck", "s.healthDone = done", "start_publishes_done")
+		o.hasStmt(d, "Server", "startHealthCheck", "defer close(done)", "start_loop_closes_done")
+		o.stmtBefore(d, "Server", "Close", "<-s.healthDone", "for _, t := range s.tokens", "close_waits_for_loop")
 		fingerprint(d, "Server", "healthCheck")
 		fingerprint(d, "Server", "healthCheckLoop")
 		fingerprint(d, "Server", "Healthy")
 		fingerprint(d, "Server", "pingOne")
 		fingerprint(d, "Server", "serveHealth")
 	}
+}
+
+// ---------------------------------------------------------------- lock discipline (C20)
+//
+// lockEvents linearises a function body, in source (= execution) order, into the events that matter for the lock
+// discipline of server/view_health.go.  Codes (kept in step with coq/C20/Lock.v):
+//
+//	 1 healthMu.Lock()        2 healthMu.Unlock()      3 defer healthMu.Unlock()
+//	 4 read healthStatus      5 read healthLastPing    6 write healthStatus      7 write healthLastPing
+//	 8 token ping (a call of a method named Ping)      9 the next conditional block is guarded by <-s.Closed
+//	10 return                11 begin of `for ... range s.tokens`                12 end of that loop
+//	13 begin of a conditional block (if/else/case/other loop body)               14 end of it
+//	15 begin of a function literal / go statement      16 end of it
+//	17 blocking primitive other than the above (channel operation outside a select with default, time.Sleep, Wait)
+//
+// Calls of functions and methods of the same package are inlined (depth <= 3): their returns are dropped and their
+// deferred unlocks are moved to the end of the inlined body, which is what happens at run time.  Empty conditional
+// blocks are removed.
+type lockWalker struct {
+	p     *pkgInfo
+	dir   string
+	mutex string
+	self  string // name of the receiver variable of the function being walked
+	ev    []int
+	depth int
+}
+
+var c20EventNames = map[int]string{1: "Lock", 2: "Unlock", 3: "DeferUnlock", 4: "rdStatus", 5: "rdLast", 6: "wrStatus", 7: "wrLast",
+	8: "Ping", 9: "onClosed", 10: "return", 11: "tokens{", 12: "}tokens", 13: "{", 14: "}", 15: "func{", 16: "}func", 17: "BLOCK"}
+
+func (w *lockWalker) emit(c int) { w.ev = append(w.ev, c) }
+
+func (w *lockWalker) callee(ce *ast.CallExpr) string { return printNode(w.p.fset, ce.Fun) }
+
+func (w *lockWalker) expr(e ast.Expr) {
+	switch x := e.(type) {
+	case nil:
+	case *ast.Ident:
+		switch x.Name {
+		case "healthStatus":
+			w.emit(4)
+		case "healthLastPing":
+			w.emit(5)
+		}
+	case *ast.CallExpr:
+		for _, a := range x.Args {
+			w.expr(a)
+		}
+		callee := w.callee(x)
+		switch {
+		case callee == w.mutex+".Lock":
+			w.emit(1)
+			return
+		case callee == w.mutex+".Unlock":
+			w.emit(2)
+			return
+		case callee == "time.Sleep" || strings.HasSuffix(callee, ".Wait"):
+			w.emit(17)
+			return
+		}
+		if sel, ok := x.Fun.(*ast.SelectorExpr); ok {
+			if sel.Sel.Name == "Ping" {
+				w.expr(sel.X)
+				w.emit(8)
+				return
+			}
+			// a method of the same package (receiver is a plain identifier such as s)
+			if id, ok := sel.X.(*ast.Ident); ok && id.Name == w.self && w.self != "" {
+				if w.inline("Server", sel.Sel.Name) {
+					return
+				}
+			}
+			w.expr(sel.X)
+			return
+		}
+		if id, ok := x.Fun.(*ast.Ident); ok {
+			if w.inline("", id.Name) {
+				return
+			}
+			return
+		}
+		if fl, ok := x.Fun.(*ast.FuncLit); ok {
+			w.emit(15)
+			w.block(fl.Body.List)
+			w.emit(16)
+			return
+		}
+		w.expr(x.Fun)
+	case *ast.FuncLit:
+		w.emit(15)
+		w.block(x.Body.List)
+		w.emit(16)
+	case *ast.BinaryExpr:
+		w.expr(x.X)
+		w.expr(x.Y)
+	case *ast.UnaryExpr:
+		w.expr(x.X)
+		if x.Op == token.ARROW {
+			w.emit(17)
+		}
+	case *ast.ParenExpr:
+		w.expr(x.X)
+	case *ast.SelectorExpr:
+		w.expr(x.X)
+	case *ast.IndexExpr:
+		w.expr(x.X)
+		w.expr(x.Index)
+	case *ast.SliceExpr:
+		w.expr(x.X)
+		w.expr(x.Low)
+		w.expr(x.High)
+		w.expr(x.Max)
+	case *ast.StarExpr:
+		w.expr(x.X)
+	case *ast.TypeAssertExpr:
+		w.expr(x.X)
+	case *ast.CompositeLit:
+		for _, el := range x.Elts {
+			w.expr(el)
+		}
+	case *ast.KeyValueExpr:
+		w.expr(x.Key)
+		w.expr(x.Value)
+	}
+}
+
+// inline the events of a same-package function; false when there is no such function.
+func (w *lockWalker) inline(recv, name string) bool {
+	_, fd := findFunc(w.dir, recv, name)
+	if fd == nil || fd.Body == nil {
+		return false
+	}
+	if w.depth >= 3 {
+		w.emit(17) // too deep to follow: treated as potentially blocking
+		return true
+	}
+	sub := &lockWalker{p: w.p, dir: w.dir, mutex: w.mutex, self: recvName(fd), depth: w.depth + 1}
+	sub.block(fd.Body.List)
+	deferred := 0
+	for _, c := range sub.ev {
+		switch c {
+		case 10:
+		case 3:
+			deferred++
+		default:
+			w.emit(c)
+		}
+	}
+	for ; deferred > 0; deferred-- {
+		w.emit(2)
+	}
+	return true
+}
+
+func (w *lockWalker) cond(body func()) {
+	w.emit(13)
+	body()
+	w.emit(14)
+}
+
+func (w *lockWalker) lhs(e ast.Expr) {
+	if id, ok := e.(*ast.Ident); ok {
+		switch id.Name {
+		case "healthStatus":
+			w.emit(6)
+		case "healthLastPing":
+			w.emit(7)
+		}
+		return
+	}
+	w.expr(e)
+}
+
+func (w *lockWalker) block(list []ast.Stmt) {
+	for _, s := range list {
+		w.stmt(s)
+	}
+}
+
+func (w *lockWalker) stmt(s ast.Stmt) {
+	switch x := s.(type) {
+	case nil:
+	case *ast.ExprStmt:
+		w.expr(x.X)
+	case *ast.AssignStmt:
+		for _, r := range x.Rhs {
+			w.expr(r)
+		}
+		for _, l := range x.Lhs {
+			if x.Tok != token.ASSIGN && x.Tok != token.DEFINE {
+				w.expr(l) // compound assignment reads first
+			}
+			w.lhs(l)
+		}
+	case *ast.IncDecStmt:
+		w.expr(x.X)
+		w.lhs(x.X)
+	case *ast.DeclStmt:
+		if gd, ok := x.Decl.(*ast.GenDecl); ok {
+			for _, sp := range gd.Specs {
+				if vs, ok := sp.(*ast.ValueSpec); ok {
+					for _, v := range vs.Values {
+						w.expr(v)
+					}
+				}
+			}
+		}
+	case *ast.DeferStmt:
+		if w.callee(x.Call) == w.mutex+".Unlock" {
+			w.emit(3)
+			return
+		}
+		for _, a := range x.Call.Args {
+			w.expr(a)
+		}
+		if fl, ok := x.Call.Fun.(*ast.FuncLit); ok {
+			w.emit(15)
+			w.block(fl.Body.List)
+			w.emit(16)
+		}
+	case *ast.GoStmt:
+		w.emit(15)
+		w.expr(x.Call)
+		w.emit(16)
+	case *ast.ReturnStmt:
+		for _, r := range x.Results {
+			w.expr(r)
+		}
+		w.emit(10)
+	case *ast.BlockStmt:
+		w.block(x.List)
+	case *ast.LabeledStmt:
+		w.stmt(x.Stmt)
+	case *ast.IfStmt:
+		w.stmt(x.Init)
+		w.expr(x.Cond)
+		w.cond(func() { w.block(x.Body.List) })
+		if x.Else != nil {
+			w.cond(func() { w.stmt(x.Else) })
+		}
+	case *ast.ForStmt:
+		w.stmt(x.Init)
+		w.expr(x.Cond)
+		w.cond(func() { w.block(x.Body.List); w.stmt(x.Post) })
+	case *ast.RangeStmt:
+		if strings.HasSuffix(printNode(w.p.fset, x.X), ".tokens") {
+			w.emit(11)
+			w.block(x.Body.List)
+			w.emit(12)
+			return
+		}
+		w.expr(x.X)
+		w.cond(func() { w.block(x.Body.List) })
+	case *ast.SwitchStmt:
+		w.stmt(x.Init)
+		w.expr(x.Tag)
+		for _, c := range x.Body.List {
+			cc := c.(*ast.CaseClause)
+			for _, e := range cc.List {
+				w.expr(e)
+			}
+			w.cond(func() { w.block(cc.Body) })
+		}
+	case *ast.TypeSwitchStmt:
+		for _, c := range x.Body.List {
+			cc := c.(*ast.CaseClause)
+			w.cond(func() { w.block(cc.Body) })
+		}
+	case *ast.SelectStmt:
+		hasDefault := false
+		for _, c := range x.Body.List {
+			if c.(*ast.CommClause).Comm == nil {
+				hasDefault = true
+			}
+		}
+		for _, c := range x.Body.List {
+			cc := c.(*ast.CommClause)
+			if cc.Comm != nil {
+				comm := printNode(w.p.fset, cc.Comm)
+				if strings.Contains(comm, ".Closed") {
+					w.emit(9)
+				} else if !hasDefault {
+					w.emit(17)
+				}
+			}
+			w.cond(func() { w.block(cc.Body) })
+		}
+	case *ast.SendStmt:
+		w.expr(x.Chan)
+		w.expr(x.Value)
+		w.emit(17)
+	}
+}
+
+// prune removes empty conditional blocks (and a Closed marker in front of an empty block), repeatedly.
+func pruneEvents(ev []int) []int {
+	for {
+		var out []int
+		changed := false
+		for i := 0; i < len(ev); i++ {
+			if ev[i] == 13 && i+1 < len(ev) && ev[i+1] == 14 {
+				if len(out) > 0 && out[len(out)-1] == 9 {
+					out = out[:len(out)-1]
+				}
+				i++
+				changed = true
+				continue
+			}
+			if ev[i] == 15 && i+1 < len(ev) && ev[i+1] == 16 {
+				i++
+				changed = true
+				continue
+			}
+			out = append(out, ev[i])
+		}
+		ev = out
+		if !changed {
+			return ev
+		}
+	}
+}
+
+func recvName(fd *ast.FuncDecl) string {
+	if fd.Recv != nil && len(fd.Recv.List) == 1 && len(fd.Recv.List[0].Names) == 1 {
+		return fd.Recv.List[0].Names[0].Name
+	}
+	return ""
+}
+
+// stmtBefore emits a bool: the function contains a statement printing as `first` that comes, in source order, before the
+// first statement whose printed form starts with `thenPrefix` (false when either is missing; select statements are not searched).
+func (o *out) stmtBefore(dir, recv, name, first, thenPrefix, coqName string) {
+	p, fd := findFunc(dir, recv, name)
+	if fd == nil || fd.Body == nil {
+		o.brokenDef(coqName, "function "+dir+":"+recv+"."+name+" not found")
+		return
+	}
+	posFirst, posThen := token.NoPos, token.NoPos
+	ast.Inspect(fd.Body, func(n ast.Node) bool {
+		if _, ok := n.(*ast.SelectStmt); ok {
+			return false // a communication inside a select is not an unconditional wait
+		}
+		if st, ok := n.(ast.Stmt); ok {
+			txt := strings.Join(strings.Fields(printNode(p.fset, st)), " ")
+			if txt == first && posFirst == token.NoPos {
+				posFirst = st.Pos()
+			}
+			if strings.HasPrefix(txt, thenPrefix) && posThen == token.NoPos {
+				posThen = st.Pos()
+			}
+		}
+		return true
+	})
+	ok := posFirst != token.NoPos && posThen != token.NoPos && posFirst < posThen
+	o.f("Definition %s : bool := %v. (* %s:%s.%s: `%s` precedes `%s...` *)\n", coqName, ok, dir, recv, name, first, thenPrefix)
+}
+
+func (o *out) lockEvents(dir, recv, name, mutex, coqName string) {
+	p, fd := findFunc(dir, recv, name)
+	if fd == nil || fd.Body == nil {
+		o.brokenDef(coqName, "function "+dir+":"+recv+"."+name+" not found")
+		return
+	}
+	w := &lockWalker{p: p, dir: dir, mutex: mutex, self: recvName(fd)}
+	w.block(fd.Body.List)
+	ev := pruneEvents(w.ev)
+	var nums, names []string
+	for _, c := range ev {
+		nums = append(nums, strconv.Itoa(c))
+		names = append(names, c20EventNames[c])
+	}
+	o.f("Definition %s : list Z := [%s].\n(* %s:%s.%s lock/ping/state events in execution order: %s *)\n", coqName, strings.Join(nums, "; "), dir, recv, name, strings.Join(names, " "))
 }
